@@ -258,6 +258,12 @@ func profileConfig(p string, seed uint64) RunConfig {
 		c.LogLevel = pick(r, "debug", "trace")
 		c.LogYield = pick(r, 10, 30, 60)
 	}
+	if (p == "C15" || p == "C03") && seed%8 == 3 && len(c.Faults) == 0 && c.KernLatency == 0 && c.LogYield == 0 {
+		// the periodic server kept inside one tick while registrations change and further
+		// ticks fall due: what it finds queued afterwards must be served in order
+		c.Overtake = true
+		c.Steps += 30
+	}
 	return c
 }
 
